@@ -121,9 +121,32 @@ def expectedReport : List RootReport :=
      [("w.PendingTasksCounter.subscribers.ForEach",
        ["w.PendingTasksCounter.subscribersMutex", "w.PendingTasksCounter.valueMutex"])]]
 
+/-- Rank of a mutex (0 for a mutex that is not in the table: it can only be taken with nothing held). -/
+def rk (m : Str) : Nat := (rankOf ranks m).getD 0
+
+/-- The lock operations of an entry point, deferred unlocks made explicit. -/
+def lockOps (r : String) : List LOp := linearize (script env r) []
+
+/-- The lock operations `Submit` is expected to perform (three nested acquisitions, released in reverse order by the
+deferred unlocks, then the push under the stack mutex). -/
+def submitOpsExpected : List LOp :=
+  [.acq (s "w.mutex"), .acq (s "w.PendingTasksCounter.valueMutex"), .acq (s "w.PendingTasksCounter.subscribersMutex"),
+   .rel (s "w.PendingTasksCounter.subscribersMutex"), .rel (s "w.PendingTasksCounter.valueMutex"), .rel (s "w.mutex"),
+   .acq (s "w.Queue.mutex"), .rel (s "w.Queue.mutex")]
+
+/-- All regenerated obligations about the unchanged skeletons in ONE kernel evaluation (the kernel converts every token
+with `String.toList`, which is slow; shared subterms are evaluated once): the scan report, rank order + balance of the
+linearised lock operations, the defer discipline of the pool lock, and `Submit`'s lock operations. -/
+theorem lockscript_all :
+    report = expectedReport ∧
+    (roots.all fun r => ordered rk [] (lockOps r)) = true ∧
+    env.fns.all (fun f => deferDiscipline (s "w.mutex") f.body) = true ∧
+    lockOps "Submit" = submitOpsExpected := by
+  decide +kernel
+
 /-- **Regenerated obligation.**  The lock scripts derived from the working tree's skeletons give exactly the expected
-report.  (One kernel evaluation for all roots.) -/
-theorem C16_lockscript_report : report = expectedReport := by decide +kernel
+report. -/
+theorem C16_lockscript_report : report = expectedReport := lockscript_all.1
 
 theorem report_mem (r : String) (hr : r ∈ roots) : reportOf env r ∈ expectedReport := by
   rw [← C16_lockscript_report]
@@ -188,29 +211,19 @@ theorem C16_lockscript_order_acyclic :
 /-- **Panic safety of the pool lock**: in every function of the table, each `Lock`/`RLock` of `w.mutex` is immediately
 followed by its deferred unlock and there is no explicit unlock: the lock is released on every exit, also when a callee
 or the function itself panics (seeded change r6-2: the panicking reject path left the read lock held). -/
-theorem C16_lockscript_defer_discipline : env.fns.all (fun f => deferDiscipline (s "w.mutex") f.body) = true := by
-  decide +kernel
+theorem C16_lockscript_defer_discipline : env.fns.all (fun f => deferDiscipline (s "w.mutex") f.body) = true :=
+  lockscript_all.2.2.1
 
 /-! ## No deadlock on the mutexes, for any number of goroutines of a pool -/
 
-/-- Rank of a mutex (0 for a mutex that is not in the table: it can only be taken with nothing held). -/
-def rk (m : Str) : Nat := (rankOf ranks m).getD 0
-
-/-- The lock operations of an entry point, deferred unlocks made explicit. -/
-def lockOps (r : String) : List LOp := linearize (script env r) []
-
 /-- **Regenerated obligation**: the lock operations of every entry point are rank-ordered, balanced and end with nothing
 held. -/
-theorem roots_ordered : ∀ r ∈ roots, ordered rk [] (lockOps r) = true := by decide +kernel
+theorem roots_ordered : ∀ r ∈ roots, ordered rk [] (lockOps r) = true :=
+  fun r hr => List.all_eq_true.mp lockscript_all.2.1 r hr
 
 /-- What `Submit` does to the locks (non-vacuity of the theorem below: three nested acquisitions, released in reverse
 order by the deferred unlocks). -/
-theorem C16_lockscript_submit_ops_example :
-    lockOps "Submit" =
-      [.acq (s "w.mutex"), .acq (s "w.PendingTasksCounter.valueMutex"), .acq (s "w.PendingTasksCounter.subscribersMutex"),
-       .rel (s "w.PendingTasksCounter.subscribersMutex"), .rel (s "w.PendingTasksCounter.valueMutex"), .rel (s "w.mutex"),
-       .acq (s "w.Queue.mutex"), .rel (s "w.Queue.mutex")] := by
-  decide +kernel
+theorem C16_lockscript_submit_ops_example : lockOps "Submit" = submitOpsExpected := lockscript_all.2.2.2
 
 /-- **The goroutines of a pool cannot deadlock on its mutexes.**  Take ANY number of goroutines, each executing the lock
 operations of any entry point (`Start`, `Submit`, `Shutdown`, `IsRunning`, `WorkerCount`, the dispatcher, a worker — with
